@@ -1,5 +1,6 @@
 (* C16 - sections are accepted exactly when usable, and no location is used twice.  Statements only. *)
 From Coq Require Import List QArith Bool Arith Sorting.Sorted.
+From Coq Require Import Sorting.Permutation.
 Import ListNotations.
 Require Import DTS.Model.Sections DTS.Proofs.SectionsP.
 
@@ -49,5 +50,11 @@ Example C16_ex_usable : usable (fun b => Nat.ltb b 2) [0; 1#2; 1; 3#2; 2]%Q [(1%
   /\ ref_all [0; 1#2; 1; 3#2; 2]%Q [(1%nat, [(1, 2)%Q]); (0%nat, [(0, 1#2)%Q])] = [0;0;1;1;1]%nat.
 Proof. split; [apply validate_iff_usable; vm_compute; reflexivity|vm_compute; auto]. Qed.
 
+(* acceptance does not depend on the order in which the dictionary lists the baths: a definition is accepted in one order
+   iff it is accepted in every other *)
+Theorem C16_acceptance_ignores_dictionary_order {B} (known : B -> bool) xs (secs secs' : list (B * list stretch)) :
+  Permutation secs secs' -> validate known xs secs = validate known xs secs'.
+Proof. exact (validate_perm known xs secs secs'). Qed.
+
 Print Assumptions C16_sel_spec. Print Assumptions C16_accept_iff_usable. Print Assumptions C16_used_iff_selected.
-Print Assumptions C16_rows_own_bath. Print Assumptions C16_bounds_test_refuted.
+Print Assumptions C16_rows_own_bath. Print Assumptions C16_bounds_test_refuted. Print Assumptions C16_acceptance_ignores_dictionary_order.
